@@ -153,7 +153,18 @@ def runG (j : Json) : Except String Json := do
   let cfg ← cfgOfJson j
   let pool ← (← jArr (← jField j "args")).mapM argOfJson
   let defs ← (← jArr (← jField j "defs")).mapM (defOfJson pool)
-  runGraph cfg pool defs (← jArr (← jField j "ops"))
+  runGraph cfg pool defs (← jArr (← jField j "ops")) (← jBool (jFieldD j "ignoreLocks" (Json.bool false)))
+
+/-- layer C: `TypeMap.__missing__` levels for a set of registered types (in the given iteration order) -/
+def runC (j : Json) : Except String Json := do
+  let H ← hierOfJson (← jField j "hier")
+  let avail ← (← jArr (← jField j "types")).toList.mapM tyOfJson
+  let qs ← (← jArr (← jField j "queries")).toList.mapM tyOfJson
+  let res := qs.map (fun q =>
+    match levels H q avail with
+    | none => Json.str "cycle"
+    | some lv => toJson ((lv.map (fun (t, l) => [avail.findIdx (· == t), l])).mergeSort (fun a b => a[0]! ≤ b[0]!)))
+  return Json.mkObj [("levels", Json.arr res.toArray)]
 
 def runLine (line : String) : String :=
   match Json.parse line with
@@ -163,6 +174,7 @@ def runLine (line : String) : String :=
       let layer ← jStr (← jField j "layer")
       match layer with
       | "A" => runA j
+      | "C" => runC j
       | "D" => runD j
       | "F" => runF j
       | "E" => runE j
